@@ -78,3 +78,8 @@
 (define-fun-rec untilerr_{L}_{F} ((f {F}) (l {L})) {L} (ite ((_ is nil_{L}) l) nil_{L} (ite (= (app0_{F} f (fst_{P} (hd_{L} l)) (snd_{P} (hd_{L} l))) err_nil) (cons_{L} (hd_{L} l) (untilerr_{L}_{F} f (tl_{L} l))) (cons_{L} (hd_{L} l) nil_{L}))))
 (define-fun-rec firsterr_{L}_{F} ((f {F}) (l {L})) Err (ite ((_ is nil_{L}) l) err_nil (ite (= (app0_{F} f (fst_{P} (hd_{L} l)) (snd_{P} (hd_{L} l))) err_nil) (firsterr_{L}_{F} f (tl_{L} l)) (app0_{F} f (fst_{P} (hd_{L} l)) (snd_{P} (hd_{L} l))))))
 (define-fun-rec evl_{L}_{F} ((f {F}) (acc {TEV}) (l {L})) {TEV} (ite ((_ is nil_{L}) l) acc (evl_{L}_{F} f (snoc_{TEV} acc ({EV} f (fst_{P} (hd_{L} l)) (snd_{P} (hd_{L} l)))) (tl_{L} l))))
+
+; @template MorphFold
+; a list of isomorphism instances applied in order, nil entries skipped
+(define-fun-rec mfwd_{FWD} ((l {L}) (s {S}) (t {T})) {T} (ite ((_ is nil_{L}) l) t (mfwd_{FWD} (tl_{L} l) s (ite (= (hd_{L} l) null) t ({FWD} (hd_{L} l) s t)))))
+(define-fun-rec minv_{INV} ((l {L}) (t {T}) (s {S})) {S} (ite ((_ is nil_{L}) l) s (minv_{INV} (tl_{L} l) t (ite (= (hd_{L} l) null) s ({INV} (hd_{L} l) t s)))))
